@@ -214,25 +214,33 @@ def coq_eval(requires: Iterable[str], exprs: List[str], preamble: str = "", time
                         f.write(f"Eval vm_compute in ({e}).\n")
                 jobs.append((start, path))
             procs = []
-            running: List[Tuple[int, str, subprocess.Popen]] = []
+            running: List[Tuple[int, str, subprocess.Popen, Any, Any]] = []
 
             def reap(block: bool) -> None:
                 for item in list(running):
-                    st, pth, pr = item
-                    if block or pr.poll() is not None:
-                        out, err = pr.communicate()
+                    st, pth, pr, fo, fe = item
+                    if block:
+                        pr.wait()
+                    if pr.poll() is not None:
                         running.remove(item)
-                        procs.append((st, pth, pr.returncode, out, err))
+                        fo.seek(0)
+                        fe.seek(0)
+                        procs.append((st, pth, pr.returncode, fo.read(), fe.read()))
+                        fo.close()
+                        fe.close()
 
             for start, path in jobs:
                 while len(running) >= JOBS:
                     reap(False)
                     time.sleep(0.02)
+                # stdout/stderr go to files: a PIPE would block coqc once a chunk prints more than the pipe buffer
+                fo = open(path + ".out", "w+")
+                fe = open(path + ".err", "w+")
                 pr = subprocess.Popen(
                     ["bash", "-c", f"ulimit -s unlimited 2>/dev/null; exec timeout {timeout} coqc -Q {COQ} DS -w -notation-overridden {path}"],
-                    stdout=subprocess.PIPE, stderr=subprocess.PIPE, text=True, cwd=td,
+                    stdout=fo, stderr=fe, text=True, cwd=td,
                 )
-                running.append((start, path, pr))
+                running.append((start, path, pr, fo, fe))
             while running:
                 reap(True)
             for start, path, rc, out, err in procs:
